@@ -256,3 +256,63 @@ def cases(big, rng):
                 add(line(role, 1, [B] + peer + [f, call, goaway, call]))
                 add(line(role, 0, [B, f] + peer + [call, goaway]))
     return L
+
+
+def drop_cases(big, rng):
+    """C05 only (reading R-05): the application drops the driver object (`<task>.D`) before, between and after the
+    calls that meet a connection error.  `Drop for server::Connection` calls `close(H3_NO_ERROR)` whatever happened
+    before: behind an error close that is a second `close` call, which the oracle accepts only there (once, behind
+    `<task>.D=ok`) while the first close is judged as before; the client's driver has no `Drop`."""
+    L, seen = [], set()
+
+    def add(l):
+        if l not in seen:
+            seen.add(l)
+            L.append(l)
+
+    for role in ("server", "client"):
+        I = ids(role)
+        t, call, S = I["task"], "%s.%s" % (I["task"], I["call"]), I["S"]
+        B, D = "%s.B" % t, "%s.D" % t
+        pctl = I["pctl"]
+        peer = ["o%d" % pctl, "s%d:000400" % pctl]
+        # what makes the connection fail at the driver's next call: (ops, does it wake a parked driver)
+        fails = [(["o%d" % pctl, "s%d:0004000000" % pctl], True),      # DATA behind SETTINGS: local 0x0105
+                 (peer + ["f%d" % pctl], True),                          # control stream closed: local 0x0104
+                 (["!ab:I"], False), (["!au:I"], False),                 # InternalError of the transport: close(0x0102)
+                 (["!ab:T"], False), (["!au:C256"], False), (["!ab:U"], False),
+                 (["C256"], True), (["T"], True), (["C0"], True)]
+        if role == "client":
+            fails.append((["o1"], True))                                 # server-initiated bidi: local 0x0103
+        if big:
+            fails += [(["!ab:C0"], False), (["!au:T"], False), (["!au:U"], False), (["C258"], True)]
+        for g in (0, 1):
+            add(line(role, g, [B, D]))
+            add(line(role, g, [D, B]))
+            add(line(role, g, [B, D, D, call]))
+            add(line(role, g, [B, call, D]))
+            add(line(role, g, [B] + peer + [call, S, D, call]))
+            for pre, wakes in fails:
+                # the error is reported (and closed for, if local), then the driver is dropped
+                for tail in ([], [call], [S, call]):
+                    add(line(role, g, [B] + pre + [call, D] + tail))
+                add(line(role, g, [B] + pre + [call, call, S, D]))
+                add(line(role, g, [B] + pre + [S, D, call]))
+                # dropped before any call has met the error
+                add(line(role, g, [B] + pre + [D, call]))
+                # the driver is waiting when the connection fails; the drop is posted before / after
+                if wakes:
+                    add(line(role, g, [B, call] + pre + [D, call]))
+                    add(line(role, g, [B, call, D] + pre + [call]))
+                else:
+                    add(line(role, g, [B, call] + pre + ["o%d" % I["puni"], D]))
+            # the own control stream is stopped: shutdown's GOAWAY write meets it (local 0x0104)
+            add(line(role, g, [B, "x%d:7" % I["ctl"], S, D, call]))
+            add(line(role, g, [B, "x%d:7" % I["ctl"], D, S]))
+            # the setup fails / is still waiting when the drop is posted
+            for f in ("!ou0:X7", "!ou0:T", "!sd%d:I" % I["ctl"], "!pr%d:K" % I["ctl"]):
+                add(line(role, g, [f, B, D, call]))
+            for end in ("C256", "T"):
+                add(line(role, g, [B, D, end, call], ",wc=0"))
+                add(line(role, g, [B, D, end], ",uc=0"))
+    return L
